@@ -64,8 +64,13 @@ def build_world(t, seed_shift=0):
 
 
 def build_twin(t):
-    noise = build_world(t, seed_shift=1) if t.get("noise", True) else None
-    return SeededTwin(build_world(t), build_world(t), noise)
+    # all three schedulers are built from the same argument objects (search_options dict, restrict_configurations list)
+    scheds.share(True)
+    try:
+        noise = build_world(t, seed_shift=1) if t.get("noise", True) else None
+        return SeededTwin(build_world(t), build_world(t), noise)
+    finally:
+        scheds.share(False)
 
 
 def ctx_of(t):
@@ -108,6 +113,10 @@ def a_configs(tier, seed):
     # PBT with a population large enough for a real choice among the upper quantile
     out.append(dict(src="generic", max_states=2500 if tier == "quick" else 8000,
                     cfg=dict(kind="pbt", seed=seed, R=3, W=4, T=6, F=0, mode="min", kw=dict(population_size=4))))
+    # one restrict_configurations list object handed to all instances
+    for kind in ("fifo-random", "hb-promotion"):
+        out.append(dict(src="generic", max_states=1500 if tier == "quick" else 5000,
+                        cfg=dict(kind=kind, seed=seed, R=3, W=2, T=5, F=1, mode="min", kw=dict(restrict=8))))
     for kind in ["pbt", "dehb", "median", "rea", "fifo-random", "fifo-grid", "hb-rush-prom", "hb-cost", "fifo-bo"]:
         for W in (2, 3):
             if tier == "quick" and W == 3:
